@@ -12,6 +12,17 @@ Ltac sys_simpl :=
   cbn [set_end set_net set_sub set_del end_of net_of sub_of del_of
        endA endB netA netB subA subB delA delB panicked other] in *.
 
+(* turn the endpoints in the goal into literal records (deeply nested setters make every later
+   conversion check expensive) *)
+Ltac tcb_norm :=
+  cbv [tcb_open listen_tcb enqueue ack_hdr hb hb_ack hb_wnd hb_flag hb_syn hb_fin hb_rst ctl0
+       set_st set_snd_una set_snd_nxt set_snd_window set_rcv_irs set_rcv_nxt set_out_text
+       set_retx set_oneshot set_fin_pending set_in_segs set_in_text set_rto set_time_wait
+       lport rport mtu listen_init st snd_una snd_nxt snd_wnd snd_wl1 snd_wl2 snd_iss
+       rcv_irs rcv_nxt rcv_wnd out_text retx oneshot fin_pending in_segs in_text rto time_wait
+       h_sport h_dport h_seq h_ack h_ctl h_wnd h_urg c_urg c_ack c_psh c_rst c_syn c_fin
+       s_hdr s_text t_seg t_needs orb app map].
+
 (* normal form of segments() when there is nothing to segmentize *)
 Lemma segments_flush t :
   out_text t = [] -> fin_pending t = false -> segmentizes (st t) = true -> 50 <= mtu t ->
@@ -24,8 +35,11 @@ Section Hs.
   Variable c : config.
   Hypothesis Hc : cfg_ok c.
 
+  Definition fresh (s : sys) : Prop := subA s = [] /\ subB s = [] /\ delA s = [] /\ delB s = [].
+
   Lemma handshake_passive :
-    Quiescent c (run c (init_sys true) [LOpen SA; LFair 2]) (wadd (issA c) 1) (wadd (issB c) 1).
+    Quiescent c (run c (init_sys true) [LOpen SA; LFair 2]) (wadd (issA c) 1) (wadd (issB c) 1) /\
+    fresh (run c (init_sys true) [LOpen SA; LFair 2]).
   Proof.
     destruct Hc as (HuA & HuB & HmA & HmB).
     cbn [run fold_left].
@@ -78,12 +92,11 @@ Section Hs.
       erewrite (recv_eval_empty _ SA (tA3)); [|reflexivity|reflexivity]. sys_simpl.
       erewrite (recv_eval_empty _ SB (set_oneshot (set_in_segs tB0 []) (oneshot tB0 ++ [ack_hdr tB0]))); [|reflexivity|reflexivity].
       sys_simpl. reflexivity. }
-    rewrite H1. clear H1.
-    set (tB0 := listen_tcb synh (issB c) (mtuB c)).
-    set (tA4 := set_in_text tA3 []). set (tB1 := set_in_text _ []).
+    rewrite H1. clear H1 E1 E2 E3. subst tA3 tA2 tA1 tA0. tcb_norm.
+    match goal with |- context [mkSys (ELive ?a) (ELive ?b)] => set (tA4 := a); set (tB1 := b) end.
     set (s2 := mkSys _ _ _ _ _ _ _ _ _).
     (* ===== half-round 1 (B): bare ACK, SYN-ACK and its copy ===== *)
-    set (ackB := ack_hdr tB0).
+    set (ackB := ack_hdr tB1).
     set (sah := hb_wnd (hb_ack (hb_syn (mkHdr (portB c) (portA c) (issB c) 0 ctl0 0 0)) (wadd (issA c) 1)) DEFAULT_WND).
     set (synack := mkSeg sah []).
     assert (F1 : tcb_segments tB1 =
@@ -124,11 +137,11 @@ Section Hs.
       rewrite deliver_all_nil by reflexivity.
       erewrite (recv_eval_empty _ SA (tA7)); [|reflexivity|reflexivity]. sys_simpl.
       erewrite (recv_eval_empty _ SB (tB4)); [|reflexivity|reflexivity]. sys_simpl. reflexivity. }
-    rewrite H2. clear H2.
-    set (tA8 := set_in_text tA7 []). set (tB5 := set_in_text tB4 []).
+    rewrite H2. clear H2 F1 F2 F3 G1 G2 G3. subst tA7 tA6 tA5 tA4 tB4 tB3 tB2 tB1. tcb_norm.
+    match goal with |- context [mkSys (ELive ?a) (ELive ?b)] => set (tA8 := a); set (tB5 := b) end.
     set (s3 := mkSys _ _ _ _ _ _ _ _ _).
     (* ===== half-round 2 (A): the ACK of the SYN-ACK and its copy ===== *)
-    set (ackA := ack_hdr tA6).
+    set (ackA := ack_hdr tA8).
     assert (K1 : tcb_segments tA8 = Ok (set_retx (set_oneshot tA8 []) [], [mkSeg ackA []; mkSeg ackA []])).
     { rewrite segments_nothing_new; try reflexivity. cbn. lia. }
     set (tA9 := set_retx _ _) in K1.
@@ -140,7 +153,7 @@ Section Hs.
     set (tA11 := set_retx _ _) in K3.
     pose proof (ack_in_synrcvd tB5 ackA (issB c) (mkTx synack false) eq_refl eq_refl eq_refl
                   ltac:(apply wadd_u32) HuB eq_refl eq_refl eq_refl eq_refl eq_refl
-                  (ack_hdr_ack_only tA6) eq_refl eq_refl) as M1.
+                  (ack_hdr_ack_only tA8) eq_refl eq_refl) as M1.
     set (tB6 := set_snd_window _ _ _ _) in M1.
     assert (M2 : segment_arrives tB6 (mkSeg ackA []) = Ok (set_in_segs tB6 [], AOk)).
     { apply ack_duplicate; try reflexivity.
@@ -162,8 +175,8 @@ Section Hs.
       rewrite deliver_all_nil by reflexivity.
       erewrite (recv_eval_empty _ SA (tA11)); [|reflexivity|reflexivity]. sys_simpl.
       erewrite (recv_eval_empty _ SB (tB7)); [|reflexivity|reflexivity]. sys_simpl. reflexivity. }
-    rewrite H3. clear H3.
-    set (tA12 := set_in_text tA11 []). set (tB8 := set_in_text tB7 []).
+    rewrite H3. clear H3 K1 K2 K3 M1 M2. subst tA11 tA10 tA9 tA8 tB7 tB6 tB5. tcb_norm.
+    match goal with |- context [mkSys (ELive ?a) (ELive ?b)] => set (tA12 := a); set (tB8 := b) end.
     set (s4 := mkSys _ _ _ _ _ _ _ _ _).
     (* both endpoints are quiet now *)
     assert (QA : quiet tA12 (wadd (issA c) 1) (wadd (issB c) 1)).
@@ -172,12 +185,14 @@ Section Hs.
     { unfold quiet. splits; try reflexivity; try apply wadd_u32; cbn; lia. }
     (* ===== half-round 2 (B): nothing to do ===== *)
     rewrite (half_idle c s4 SB tB8 tA12 _ _ eq_refl QB eq_refl eq_refl eq_refl).
+    split; [|unfold fresh; auto].
     exists tA12, tB8. splits; try reflexivity; assumption.
   Qed.
 
   (* simultaneous open: both sides open actively, two loss-free rounds *)
   Lemma handshake_simultaneous :
-    Quiescent c (run c (init_sys false) [LOpen SA; LOpen SB; LFair 2]) (wadd (issA c) 1) (wadd (issB c) 1).
+    Quiescent c (run c (init_sys false) [LOpen SA; LOpen SB; LFair 2]) (wadd (issA c) 1) (wadd (issB c) 1) /\
+    fresh (run c (init_sys false) [LOpen SA; LOpen SB; LFair 2]).
   Proof.
     destruct Hc as (HuA & HuB & HmA & HmB).
     cbn [run fold_left].
@@ -225,11 +240,11 @@ Section Hs.
       rewrite deliver_all_nil by reflexivity.
       erewrite (recv_eval_empty _ SA tA3); [|reflexivity|reflexivity]. sys_simpl.
       erewrite (recv_eval_empty _ SB tB2); [|reflexivity|reflexivity]. sys_simpl. reflexivity. }
-    rewrite H1. clear H1.
-    set (tA4 := set_in_text tA3 []). set (tB3 := set_in_text tB2 []).
+    rewrite H1. clear H1 E1 E2 E3 E4 E5. subst tA3 tA2 tA1 tA0 tB2 tB1 tB0. tcb_norm.
+    match goal with |- context [mkSys (ELive ?a) (ELive ?b)] => set (tA4 := a); set (tB3 := b) end.
     set (s2 := mkSys _ _ _ _ _ _ _ _ _).
     (* ===== half-round 1 (B): bare ACK, SYN, SYN-ACK and the two copies ===== *)
-    set (ackB := ack_hdr tB1).
+    set (ackB := ack_hdr tB3).
     set (sah := hb_wnd (hb_ack (hb_syn (mkHdr (portB c) (portA c) (issB c) 0 ctl0 0 0)) (wadd (issA c) 1)) DEFAULT_WND).
     set (synackB := mkSeg sah []).
     assert (F1 : tcb_segments tB3 =
@@ -282,11 +297,11 @@ Section Hs.
       rewrite deliver_all_nil by reflexivity.
       erewrite (recv_eval_empty _ SA tA9); [|reflexivity|reflexivity]. sys_simpl.
       erewrite (recv_eval_empty _ SB tB6); [|reflexivity|reflexivity]. sys_simpl. reflexivity. }
-    rewrite H2. clear H2.
-    set (tA10 := set_in_text tA9 []). set (tB7 := set_in_text tB6 []).
+    rewrite H2. clear H2 F1 F2 F3 G1 G2 G3 G4 G5. subst tA9 tA8 tA7 tA6 tA5 tA4 tB6 tB5 tB4 tB3. tcb_norm.
+    match goal with |- context [mkSys (ELive ?a) (ELive ?b)] => set (tA10 := a); set (tB7 := b) end.
     set (s3 := mkSys _ _ _ _ _ _ _ _ _).
     (* ===== half-round 2 (A): three ACKs ===== *)
-    set (ackA := ack_hdr tA7).
+    set (ackA := ack_hdr tA10).
     assert (K1 : tcb_segments tA10 =
                  Ok (set_retx (set_oneshot tA10 []) [], [mkSeg ackA []; mkSeg ackA []; mkSeg ackA []])).
     { rewrite segments_nothing_new; try reflexivity. cbn. lia. }
@@ -299,7 +314,7 @@ Section Hs.
     set (tA13 := set_retx _ _) in K3.
     pose proof (ack_in_synrcvd_all tB7 ackA (issB c) eq_refl eq_refl eq_refl
                   ltac:(apply wadd_u32) HuB eq_refl eq_refl ltac:(repeat constructor)
-                  (ack_hdr_ack_only tA7) eq_refl eq_refl) as M1.
+                  (ack_hdr_ack_only tA10) eq_refl eq_refl) as M1.
     set (tB8 := set_snd_window _ _ _ _) in M1.
     assert (M2 : segment_arrives tB8 (mkSeg ackA []) = Ok (set_in_segs tB8 [], AOk)).
     { apply ack_duplicate; try reflexivity.
@@ -330,14 +345,15 @@ Section Hs.
       rewrite deliver_all_nil by reflexivity.
       erewrite (recv_eval_empty _ SA tA13); [|reflexivity|reflexivity]. sys_simpl.
       erewrite (recv_eval_empty _ SB tB10); [|reflexivity|reflexivity]. sys_simpl. reflexivity. }
-    rewrite H3. clear H3.
-    set (tA14 := set_in_text tA13 []). set (tB11 := set_in_text tB10 []).
+    rewrite H3. clear H3 K1 K2 K3 M1 M2 M3. subst tA13 tA12 tA11 tA10 tB10 tB9 tB8 tB7. tcb_norm.
+    match goal with |- context [mkSys (ELive ?a) (ELive ?b)] => set (tA14 := a); set (tB11 := b) end.
     set (s4 := mkSys _ _ _ _ _ _ _ _ _).
     assert (QA : quiet tA14 (wadd (issA c) 1) (wadd (issB c) 1)).
     { unfold quiet. splits; try reflexivity; try apply wadd_u32; cbn; lia. }
     assert (QB : quiet tB11 (wadd (issB c) 1) (wadd (issA c) 1)).
     { unfold quiet. splits; try reflexivity; try apply wadd_u32; cbn; lia. }
     rewrite (half_idle c s4 SB tB11 tA14 _ _ eq_refl QB eq_refl eq_refl eq_refl).
+    split; [|unfold fresh; auto].
     exists tA14, tB11. splits; try reflexivity; assumption.
   Qed.
 End Hs.
